@@ -126,7 +126,7 @@ CHECKS = {
     "C17": {
         "binaries": ["forwarder"],
         "runs": [
-            R(LAB, "^TestC17Binary", {"checks": 15, "timeout": 300}, {"checks": 150, "shards": 4, "timeout": 1200}),
+            R(LAB, "^TestC17Binary", {"checks": 40, "timeout": 300}, {"checks": 300, "shards": 4, "timeout": 1200}),
             R("./ruleset", "^TestC17Match$", {"checks": 20000, "timeout": 300}, {"checks": 150000, "shards": 16, "timeout": 1200}),
             R("./ruleset", "^TestC17Concurrent", {"checks": 1500, "timeout": 300}, {"checks": 20000, "shards": 4, "timeout": 1200}, race=True),
             R("./bind", "^TestC17Delivery", {"checks": 3000, "timeout": 300}, {"checks": 60000, "shards": 4, "timeout": 1200}),
